@@ -25,12 +25,19 @@ def gen_history(rng, ncomp, nops):
     for c in range(rng.randint(2, ncomp)):
         ops.append(("add", c))
     kinds = ["connect"] * 5 + ["cut"] * 2 + ["remove"] * 1 + ["readd"] * 2 + ["add"] * 1 + ["map"] * 1 + ["raise"] * 1 + ["solve"] * 2
+    pairs = []
     for _ in range(nops):
         k = rng.choice(kinds)
         if k in ("add", "cut", "remove", "readd"):
             ops.append((k, rng.randrange(ncomp)))
         elif k == "connect":
-            ops.append((k, rng.randrange(ncomp), rng.randrange(3), rng.randrange(ncomp), rng.randrange(3)))
+            # bias towards several links between the same two structures
+            if pairs and rng.random() < 0.45:
+                a, b = rng.choice(pairs)
+            else:
+                a, b = rng.randrange(ncomp), rng.randrange(ncomp)
+                pairs.append((a, b))
+            ops.append((k, a, rng.randrange(4), b, rng.randrange(4)))
         elif k == "map":
             ops.append((k, rng.randrange(ncomp), rng.randrange(3)))
         else:
@@ -161,7 +168,7 @@ def run_history(ctx, comps, ops, replay, stop_sig=None):
 def make_comps(rng, ncomp):
     comps = []
     for c in range(ncomp):
-        n = rng.randint(2, 3)
+        n = rng.randint(2, 4)
         comps.append({"pins": [f"c{c}p{i}" for i in range(n)], "idx": rng.sample(range(n), n), "S": gen.contractive(rng, n)})
     return comps
 
@@ -202,7 +209,7 @@ def run(ctx):
         ops = gen_history(rng, ncomp, rng.randint(4, maxops))
         replay = {"comps": comps_json(comps), "ops": [list(o) for o in ops]}
         nt = any(o[0] in ("cut", "remove") for o in ops[:-2])
-        ctx.case(replay["ops"], nontrivial=nt, tags=[f"ops:{min(len(ops) // 5 * 5, 30)}"] + sorted({f"has:{o[0]}" for o in ops}),
+        ctx.case(replay["ops"], nontrivial=nt, tags=[f"ops:{min(len(ops) // 5 * 5, 30)}"] + sorted({f"has:{o[0]}" for o in ops}) + (["multi-link-ops"] if len({(min(o[1], o[3]), max(o[1], o[3])) for o in ops if o[0] == "connect"}) < sum(1 for o in ops if o[0] == "connect") else []),
                  sample=replay["ops"] if i < 2 else None)
         before = len(ctx.violations)
         sig = run_history(ctx, comps, ops, replay)
